@@ -108,6 +108,12 @@ def gen_case(rng, directed=None):
             b = 0.05
             guides = [{'kind': 'sbend2', 'y': round(ym + gap / 2 + b, 5), 'xa': xa, 'xb': xb, 'dy': -b, 'xs': round(col['x_center'] - col['length'] / 2 - 0.3, 4)},
                       {'kind': 'sbend2', 'y': round(ym - gap / 2 - b, 5), 'xa': xa, 'xb': xb, 'dy': b, 'xs': round(col['x_center'] - col['length'] / 2 - 0.3, 4)}]
+        if ncol >= 2 and k == ncol - 2 and kind in ('plain', 'tilted') and rng.random() < 0.3:
+            # a column that digs nothing: its guides stop before they reach it (the library prints "No trench found" and keeps the
+            # column, which is exported and called like the others)
+            for g in guides:
+                g['xb'] = round(col['x_center'] - col['length'] / 2 - 0.3, 4)
+                g['xa'] = round(g['xb'] - 1.0, 4)
         cols.append({'col': col, 'guides': guides})
     mutate = None
     if rng.random() < 0.1:
@@ -245,6 +251,7 @@ def check_case(ctx, case):
         nt = nb >= 2 and any(p['nboxz'] >= 2 for p in eff) and bool(cfg.get('flip_x') or cfg.get('flip_y') or (cfg.get('rotation_angle') or 0) % 360)
         ctx.seen({'stream': 'tree', **info}, nt)
         ctx.count('tree.columns', str(len(cols)))
+        ctx.count('tree.empty_columns', str(sum(1 for c_ in cols if len(list(c_)) == 0)))
         ctx.count('tree.kind', 'U' if case['utrench'] else 'plain')
         ctx.count('tree.history', ('second-export' + ('/same-writer' if case.get('same_writer') else '/new-writer')) if case.get('mutate') is not None else 'fresh')
         ctx.count('tree.blocks', str(min(nb, 6)))
